@@ -705,8 +705,10 @@ impl<'r> Gen<'r> {
                     .iter()
                     .map(|fi| {
                         let (fname, ft) = self.defs.structs[*si].fields[*fi].clone();
-                        if self.rng.chance(1, 3) {
-                            // shorthand `S { a }` binds the field name itself
+                        let already_bound_here = self.scopes.last().map(|sc| sc.iter().any(|v| v.name == fname)).unwrap_or(false);
+                        if !already_bound_here && self.rng.chance(1, 3) {
+                            // shorthand `S { a }` binds the field name itself (never twice in one
+                            // pattern / scope: duplicate bindings are not well-formed)
                             self.declare(&fname, ft, false);
                             (*fi, Pat::Bind(fname))
                         } else {
@@ -979,6 +981,10 @@ impl<'r> Gen<'r> {
                 }
                 _ => break,
             }
+        }
+        if self.in_head > 0 && self.contains_struct(&cur) {
+            // a struct literal cannot be written inside an if / match / for head
+            return None;
         }
         // compound assignment for integers / bools
         let op = match &cur {
